@@ -18,7 +18,8 @@
    inside coqc on every pair the check sends to the model (tools/props/c08.py), and the implementation is compared
    with an exact convex-hull reference on every generated pair. *)
 From Coq Require Import List Bool ZArith QArith Reals.
-From Similari Require Import Base.Num Model.Geom Proofs.GeomProofs Proofs.GeomProofsR.
+From Similari Require Import Base.Num Model.Geom Proofs.BoxExtraProofs Proofs.GeomProofs Proofs.GeomProofsR.
+From SimilariGen Require Import Scalar ScalarClip ScalarBox.
 Import ListNotations.
 Open Scope Q_scope.
 
@@ -155,6 +156,52 @@ Theorem too_far_sqrt_form :
     ((sqrt r1 + sqrt r2) * (sqrt r1 + sqrt r2) < d2 <->
      (0 < d2 - r1 - r2 /\ 4 * r1 * r2 < (d2 - r1 - r2) * (d2 - r1 - r2)))%R.
 Proof. exact too_far_sqrt_form_lemma. Qed.
+
+(* ---- the tie to the Rust source: gen/ScalarClip.v and gen/ScalarBox.v are regenerated from /repo on every run ----
+   The model CALLS the translated is_inside / compute_intersection / vertices / radius^2 / axis-aligned intersection
+   (equalities by computation; pinned here so that a re-written model cannot drift silently); the remaining scalar
+   definitions of the model are hand-written and proved equal to the translated text.  A changed comparison or
+   formula in clipping.rs / bbox.rs therefore breaks a Qed in this cone. *)
+Theorem is_inside_is_translation :
+  forall q p1 p2 : qpt,
+    is_inside Qops q p1 p2 = clip_is_inside Qops (to_coord Qops q) (to_coord Qops p1) (to_coord Qops p2).
+Proof. exact is_inside_is_translation_lemma. Qed.
+
+Theorem compute_intersection_is_translation :
+  forall cp1 cp2 s e : qpt,
+    compute_intersection Qops cp1 cp2 s e =
+    of_coord Qops (clip_compute_intersection Qops (to_coord Qops cp1) (to_coord Qops cp2) (to_coord Qops s) (to_coord Qops e)).
+Proof. exact compute_intersection_is_translation_lemma. Qed.
+
+Theorem rect_vertices_is_translation :
+  forall b : qbox, rect_vertices Qops b = map (of_coord Qops) (ubox_vertices Qops (to_ubox Qops b) (bc b) (bs b)).
+Proof. exact rect_vertices_is_translation_lemma. Qed.
+
+Theorem radius2_is_translation : forall b : qbox, radius2 Qops b = ubox_radius_sq Qops (to_ubox Qops b).
+Proof. exact radius2_is_translation_lemma. Qed.
+
+Theorem aa_inter_is_translation :
+  forall l r : ltwh Qops, aa_inter Qops l r = bbox_intersection Qops (to_bbox Qops l) (to_bbox Qops r).
+Proof. exact aa_inter_is_translation_lemma. Qed.
+
+Theorem box_area_is_translation : forall b : qbox, box_area Qops b == ubox_area Qops (to_ubox Qops b).
+Proof. exact box_area_is_translation_lemma. Qed.
+
+Theorem to_ltwh_is_translation :
+  forall b : qbox, ubox_to_bbox Qops (to_ubox Qops b) = Some (to_bbox Qops (to_ltwh Qops b)).
+Proof. exact to_ltwh_is_translation_lemma. Qed.
+
+Theorem of_ltwh_is_translation :
+  forall r : ltwh Qops, bbox_to_ubox Qops (to_bbox Qops r) = to_ubox Qops (of_ltwh Qops r).
+Proof. exact of_ltwh_is_translation_lemma. Qed.
+
+(* the translated too_far (radii = any non-negative numbers whose squares are the translated radius_sq, i.e. the
+   square roots the code takes) decides exactly what the model's sqrt-free too_far decides *)
+Theorem too_far_is_translation :
+  forall (l r : qbox) (rl rr : Q),
+    0 <= rl -> 0 <= rr -> rl * rl == radius2 Qops l -> rr * rr == radius2 Qops r ->
+    ubox_too_far_r Qops (to_ubox Qops l) (to_ubox Qops r) rl rr = too_far Qops l r.
+Proof. exact too_far_is_translation_lemma. Qed.
 
 (* PARTIAL (see the header): what is proved of "the reported area is the true area" *)
 Theorem iou_exact_partial :
